@@ -733,9 +733,52 @@ def run_components(ctx):
                         judge_component(ctx, entries, a, catalog=shared)
 
 
+def refused_then_valid(ctx, entries, names):
+    """A request the catalogue rightly refuses (too few / too many interface ids or labels, an unknown model) must not change
+    what later, valid requests get - in the same process, from the same or another catalogue object."""
+    from fim.slivers import component_catalog as cc
+    from fim.slivers.attached_components import ComponentType
+    from fim.slivers.capacities_labels import Labels
+    with_if = [(i, e) for i, e in enumerate(entries) if e.get('Interfaces')]
+    if not with_if:
+        return
+    shared = cc.ComponentCatalog()
+    for bi, (ei, e) in enumerate(with_if):
+        if bi % ctx.nshards != ctx.shard:
+            continue
+        nports = len(e['Interfaces'])
+        ct = getattr(ComponentType, e['Type'])
+        bad_calls = [dict(interface_node_ids=['only-one'] * (nports + 1)), dict(interface_node_ids=[]),
+                     dict(interface_labels=[Labels(mac='0c:42:a1:00:00:01')] * (nports + 1)),
+                     dict(interface_node_ids=['x'] * (nports - 1), interface_labels=[Labels(bdf='0000:41:00.0')] * (nports + 2))]
+        for kwbad in bad_calls:
+            for cat in (shared, cc.ComponentCatalog()):
+                ctx.count('comp:refused-request')
+                try:
+                    cat.generate_component(name='nic-bad', ctype=ct, model=e['Model'], **kwbad)
+                    ctx.violation('C18/component-wrong-count-accepted', 'ids / labels must be one per catalogued port',
+                                  {'part': 'component', 'catalog_entry': dict(e), 'kwargs': sorted(kwbad)})
+                    continue
+                except Exception:
+                    pass
+                # ... afterwards every model with interfaces is still served, either naming
+                for ej, e2 in with_if:
+                    for nm in ('model_type', 'ctype_model'):
+                        a = {'entry': ej, 'naming': nm, 'name': 'nic1', 'labels_shape': 'none', 'ids': None, 'labels': None,
+                             'ns_id': None, 'parent': None, 'after': ['refused', e['Model'], sorted(kwbad)]}
+                        if nm == 'model_type':
+                            a['member'] = names[ej]
+                        else:
+                            a['model'] = e2['Model']
+                        ctx.count('comp:valid-request-after-a-refused-one')
+                        judge_component(ctx, entries, a, catalog=cat)
+
+
 def run(ctx):
     from fim.graph.abc_property_graph import ABCPropertyGraph  # noqa  (make sure the whole package imports)
     run_components(ctx)
+    entries = read_components()
+    refused_then_valid(ctx, entries, [massage(e['Type']) + '_' + massage(e['Model']) for e in entries])
     run_sizes(ctx)
 
 
@@ -755,7 +798,10 @@ def replay(ctx, case):
     elif part == 'component':
         entries = read_components()
         a = w['args']
-        if a.get('after'):
+        if a.get('after') and a['after'][0] == 'refused':
+            # the request followed one the catalogue refused: run that whole phase again
+            refused_then_valid(ctx, entries, [massage(e['Type']) + '_' + massage(e['Model']) for e in entries])
+        elif a.get('after'):
             # the request came second on a catalogue object that had just served another one
             from fim.slivers import component_catalog as cc
             shared = cc.ComponentCatalog()
